@@ -446,6 +446,23 @@ def _op_solve(ctx, op, state):
             if not np.isfinite(db) or db > 1e-9:
                 ctx.violate("batch-size", "solve", which, f"the potential at the same points differs by {db:.3g} between a call with {nbig} points and a call with {len(sel)} of them")
         ctx.probes.hit("potential-evaluated-at-%d-points" % nbig)
+    if oc[0] == "ok" and (bseed + ctx.step) % 6 == 3:
+        # the dtype and container of the evaluation points are the caller's business too: an integer probe lattice
+        # (np.mgrid, int64 or int32), single precision - same positions, same potential
+        lat = np.mgrid[-2:3, -2:3, -2:3].reshape(3, -1).T
+        cc = np.atleast_2d(np.asarray(c, dtype=float))[0]
+        lat = lat[np.linalg.norm(lat - cc, axis=1) > 0.2]
+        flav = (bseed // 6) % 3
+        arg = lat.astype(np.int64) if flav == 0 else lat.astype(np.float32) if flav == 1 else lat.astype(np.int32)  # (lists are not accepted: ndarray(N, 3) is the documented type)
+        od = _outcome(lambda: np.asarray(held["pot"](arg), dtype=float))
+        of = _outcome(lambda: np.asarray(held["pot"](lat.astype(float)), dtype=float))
+        if od[0] == "raise" and of[0] == "ok":
+            ctx.violate("points-dtype", "solve", f"{which}:raise", f"the returned potential raised {od[1]!r} for evaluation points given as {('int64 array', 'float32 array', 'int32 array')[flav]}")
+        elif od[0] == "ok" and of[0] == "ok":
+            dd = float(np.max(np.abs(od[1] - of[1]))) / max(1.0, float(np.max(np.abs(of[1]))))
+            if not np.isfinite(dd) or dd > 1e-6:
+                ctx.violate("points-dtype", "solve", which, f"the potential at the same positions differs by {dd:.3g} between points given as {('int64 array', 'float32 array', 'int32 array')[flav]} and as a float64 array")
+        ctx.probes.hit("potential-evaluated-at-points-of-other-dtype")
     if oc[0] == "ok" and not np.array_equal(np.asarray(held["first_after"], dtype=float), held["keep"], equal_nan=True):
         ctx.violate("result-overwritten", "solve", which, "the array returned by the potential changed when the potential was evaluated again at other points")
     if oc[0] == "ok":
